@@ -13,6 +13,7 @@ from linear_operator.operators import (
     InterpolatedLinearOperator,
     LinearOperator,
     LowRankRootAddedDiagLinearOperator,
+    LowRankRootLinearOperator,
     MaskedLinearOperator,
     MatmulLinearOperator,
     RootLinearOperator,
@@ -871,6 +872,10 @@ class SGPRPredictionStrategy(DefaultPredictionStrategy):
             )
 
         test_train_covar = joint_covar[..., self.num_train :, : self.num_train].evaluate_kernel()
+        # Edge case: the test inputs ARE the training inputs. The kernel takes the cross-covariance for a train-train block
+        # and adds the diagonal correction to it, which belongs to the training covariance only
+        if isinstance(test_train_covar, LowRankRootAddedDiagLinearOperator):
+            test_train_covar = test_train_covar._linear_op
 
         return (
             self.exact_predictive_mean(test_mean, test_train_covar),
@@ -888,6 +893,8 @@ class SGPRPredictionStrategy(DefaultPredictionStrategy):
         # Edge case: test_x and train_x are the same - test_train_covar is a LowRankRootAddedDiagLinearOperator
         elif isinstance(test_train_covar, LowRankRootAddedDiagLinearOperator):
             L = test_train_covar._linear_op.root.to_dense()
+        elif isinstance(test_train_covar, LowRankRootLinearOperator):
+            L = test_train_covar.root.to_dense()
         else:
             # We should not hit this point of the code - this is to catch potential bugs in GPyTorch
             raise ValueError(
